@@ -96,6 +96,9 @@ type CGCliStep struct {
 	// Padded > 0: the model file is a copy made larger than Padded MiB by one extra method-less class
 	// with a very long FilePath (model files of big code bases reach tens of MiB)
 	Padded int `json:"padded,omitempty"`
+	// TornBefore > 0: before this command the reports in coca_reporter/ are cut to that percentage of
+	// their length (100: to nothing), as a command interrupted in the middle of its writes leaves them
+	TornBefore int `json:"torn_before,omitempty"`
 }
 
 type CGScenario struct {
@@ -107,6 +110,9 @@ type CGScenario struct {
 	CliProcs [][]CGCliStep `json:"cli_procs,omitempty"`
 	// CliTmpOtherFS[i]: CLI process i runs with $TMPDIR on another file system
 	CliTmpOtherFS []bool `json:"cli_tmp_other_fs,omitempty"`
+	// CliUnpriv[i]: CLI process i runs as an ordinary user owning the working directory (root is exempt
+	// from permission bits: what a report's file mode does to the next run only shows to such a user)
+	CliUnpriv []bool `json:"cli_unpriv,omitempty"`
 }
 
 // ---- generator ----
@@ -263,12 +269,15 @@ func genModel(t *tape.Tape, thorough bool) []MClass {
 			}
 			if t.Bool(1, 25) {
 				// names that are keywords elsewhere are ordinary method names in a model
-				name = []string{"new", "super", "this", "default", "init", "x", "r", "com", "p", "a->b", "m1", "m10", "a\\b", "t\tab", "nb\u00a0sp", "pct%s", "100%d"}[t.Pick(17)] // keywords elsewhere; or equal to a package segment
+				name = []string{"new", "super", "this", "default", "init", "x", "r", "com", "p", "a->b", "m1", "m10", "a\\b", "t\tab", "nb\u00a0sp", "pct%s", "100%d", "\"gr\u00fc\u00df\"", "q\"\u4f60"}[t.Pick(19)] // keywords elsewhere; or equal to a package segment
 				for _, f := range c.Functions {
 					if f.Name == name {
 						name = fmt.Sprintf("m%d", j)
 					}
 				}
+			}
+			if len(c.Functions) > 0 && t.Bool(1, 10) {
+				name = c.Functions[len(c.Functions)-1].Name + "All" // save / saveAll: one full name a strict prefix of another
 			}
 			isCtor := false
 			if j == 0 && t.Bool(1, 6) {
@@ -505,10 +514,23 @@ func genCGScenario(t *tape.Tape, tier string) *CGScenario {
 				if t.Bool(1, 300) {
 					st.Padded = []int{17, 65}[t.Pick(2)]
 				}
+				if t.Bool(1, 6) {
+					st.TornBefore = 1 + t.Pick(100)
+					if t.Bool(1, 3) {
+						st.TornBefore = 100 // cut to nothing
+					}
+					if len(steps) > 0 && t.Bool(1, 2) {
+						// the interrupted command is simply run again
+						torn := st.TornBefore
+						st = steps[len(steps)-1]
+						st.TornBefore = torn
+					}
+				}
 				steps = append(steps, st)
 			}
 			sc.CliProcs = append(sc.CliProcs, steps)
 			sc.CliTmpOtherFS = append(sc.CliTmpOtherFS, t.Bool(1, 3))
+			sc.CliUnpriv = append(sc.CliUnpriv, t.Bool(1, 3))
 		}
 	}
 	return sc
@@ -1024,7 +1046,16 @@ func runCG(id string, ctx *sim.RunCtx, data json.RawMessage) (*sim.Outcome, erro
 				proc.TmpOtherFS = true
 				out.Faults["tmpdir-on-other-fs"]++
 			}
+			if pi < len(sc.CliUnpriv) && sc.CliUnpriv[pi] {
+				proc.Unprivileged = true
+				out.Faults["unprivileged-user"]++
+			}
+			var opIndex []int // record index of each step's command
 			for _, s := range st {
+				if s.TornBefore > 0 {
+					proc.Ops = append(proc.Ops, sim.Op{Op: "tear", Args: map[string]interface{}{"dir": "coca_reporter", "percent": s.TornBefore % 100, "keep": []string{"deps.json"}, "tmp": []string{"call.dot", "rcall.dot", "rcallmap.json"}}})
+					out.Faults["reports-torn-by-interrupted-run"]++
+				}
 				file := fmt.Sprintf("full%d.json", s.Model)
 				if s.Sparse && s.Cmd == "call" {
 					file = fmt.Sprintf("sparse%d.json", s.Model)
@@ -1055,6 +1086,7 @@ func runCG(id string, ctx *sim.RunCtx, data json.RawMessage) (*sim.Outcome, erro
 					out.Faults["model-file-is-a-pipe"]++
 				}
 				hist = append(hist, "cli-"+s.Cmd)
+				opIndex = append(opIndex, len(proc.Ops))
 				if s.Cmd == "call" {
 					// every flag is given explicitly: cobra keeps flag values between in-process runs
 					args := []string{"call", "-c", s.Root, "-d", file, fmt.Sprintf("-l=%v", s.Lookup), "-r", ""}
@@ -1085,13 +1117,13 @@ func runCG(id string, ctx *sim.RunCtx, data json.RawMessage) (*sim.Outcome, erro
 				judged := (id == "C03" && s.Cmd == "call") || (id == "C04" && (s.Cmd == "rcall" || s.Lookup))
 				where := fmt.Sprintf("CLI process %d step %d (`coca %s -c %s`, %d earlier commands left reports in this directory)", pi, si, s.Cmd, s.Root, steps)
 				steps++
-				if !res.Completed(si) {
+				if !res.Completed(opIndex[si]) {
 					if judged {
 						add("cli-"+s.Cmd+"/does-not-terminate", fmt.Sprintf("%s: process ended with %q\n%s", where, res.Ended, firstLines(res.Stderr, 6)))
 					}
 					break
 				}
-				rec := res.Records[si]
+				rec := res.Records[opIndex[si]]
 				if si > 0 {
 					out.Faults["no-restart"]++
 				}
